@@ -10,7 +10,7 @@ def strTok : P String := do let t ← next; if t.startsWith "s" then pure (sdrop
 
 def request : P (Req × Conf) := do
   let kind ← next
-  let known ← boolean
+  let known ← nat   -- 0 unknown device, 1 known, 2..4 known with a failing KEK / label lookup
   let nwk ← hex
   let app ← hex
   let nonce ← int
@@ -31,7 +31,8 @@ def request : P (Req × Conf) := do
   let q : Req := { rejoin := kind == "R", sender, receiver, txid, phy, devEUI := BitVec.ofNat 64 (leNat devEUI.reverse),
                    devAddr := BitVec.ofNat 32 (leNat devAddr.reverse), optNeg, rx2dr := byteOfNat rx2dr, rx1off := byteOfNat rx1off,
                    rxDelay, cfList }
-  let c : Conf := { device := if known then some (nwk, app, nonce) else none, nsKEK, asLabel, asKEK := if asLabel then asKEK else [] }
+  let c : Conf := { device := if known ≥ 1 then some (nwk, app, nonce) else none, nsKEK, asLabel, asKEK := if asLabel then asKEK else [],
+                    lookupFails := known ≥ 2 }
   pure (q, c)
 
 def fmtKey : Option (Bool × Bytes) → String
